@@ -698,6 +698,28 @@ def r6_regrouped_fields(run, w):
     other = sorted(o for o in origins if o not in carried and o not in new_cols)
     return bad_new, other
 
+  # maps from a field's (old-table) column id to the field
+  maps = set()
+  for n in cfg.nodes:
+    if n.kind == "stmt" and isinstance(n.stmt, ast.Assign) and len(n.stmt.targets) == 1 and \
+        isinstance(n.stmt.targets[0], ast.Name):
+      v, at = H.resolve(fn, du, rd, n.stmt.targets[0], cfg.exit.id) \
+          if isinstance(n.stmt.value, (ast.Dict,)) else (n.stmt.value, n.id)
+      if isinstance(v, ast.DictComp) and len(v.generators) == 1 and \
+          sec_is(v.generators[0].iter, "fields") and \
+          text(v.key) == "%s.colRef.colId" % text(v.generators[0].target) and \
+          text(v.value) == text(v.generators[0].target):
+        maps.add(n.stmt.targets[0].id)
+  for nm_ in list(du.muts):
+    for m in cfg.nodes:
+      if m.stmt is not None and m.id not in du.muts[nm_] and any(
+          isinstance(y, ast.Name) and y.id == nm_ and isinstance(y.ctx, ast.Load)
+          for e_ in m.exprs if e_ is not None for y in ast.walk(e_)):
+        c2 = H.loop_as_comprehension(fn, du, rd, nm_, m.id)
+        if isinstance(c2, ast.DictComp) and sec_is(c2.generators[0].iter, "fields") and \
+            text(c2.key) == "%s.colRef.colId" % text(c2.generators[0].target):
+          maps.add(nm_)
+        break
   # (a) the keep set: fields whose column id is not in it are deleted
   removes = []
   for (n, c, nm) in fn.calls():
@@ -708,6 +730,20 @@ def r6_regrouped_fields(run, w):
       if isinstance(v, (ast.ListComp, ast.GeneratorExp)) and len(v.generators) == 1 and \
           sec_is(v.generators[0].iter, "fields"):
         removes.append((n, v, at))
+      elif isinstance(v, (ast.ListComp, ast.GeneratorExp)) and len(v.generators) == 1 and \
+          not v.generators[0].ifs and isinstance(v.elt, ast.Subscript) and \
+          isinstance(v.elt.value, ast.Name) and v.elt.value.id in maps and \
+          text(v.elt.slice) == text(v.generators[0].target):
+        # [<map>[c] for c in <ids of the map> - <kept ids>]
+        it = H.strip_wrappers(H.expand(fn, v.generators[0].iter), ("sorted", "list", "tuple"))
+        m_ = v.elt.value.id
+        own_keys = lambda e: text(e) in (m_, "%s.keys()" % m_, "set(%s)" % m_,
+                                         "set(%s.keys())" % m_)
+        if isinstance(it, ast.BinOp) and isinstance(it.op, ast.Sub) and own_keys(it.left) and \
+            isinstance(it.right, ast.Name):
+          fake = ast.parse("[f for f in %s.fields if f.colRef.colId not in %s]"
+                           % (p_sec, it.right.id), mode="eval").body
+          removes.append((n, fake, at))
   if len(removes) != 1:
     raise AnalysisError("update_summary_section: removal of the fields that are not kept not "
                         "recognised")
@@ -763,27 +799,6 @@ def r6_regrouped_fields(run, w):
          "neither deleted nor re-pointed", ok, fi=fn.fi, node=rn.stmt,
          witness=None if ok else "kept ids also come from %s" % ", ".join(bad_new + other))
   # (b) look-ups of kept fields by column id
-  maps = set()
-  for n in cfg.nodes:
-    if n.kind == "stmt" and isinstance(n.stmt, ast.Assign) and len(n.stmt.targets) == 1 and \
-        isinstance(n.stmt.targets[0], ast.Name):
-      v, at = H.resolve(fn, du, rd, n.stmt.targets[0], cfg.exit.id) \
-          if isinstance(n.stmt.value, (ast.Dict,)) else (n.stmt.value, n.id)
-      if isinstance(v, ast.DictComp) and len(v.generators) == 1 and \
-          sec_is(v.generators[0].iter, "fields") and \
-          text(v.key) == "%s.colRef.colId" % text(v.generators[0].target) and \
-          text(v.value) == text(v.generators[0].target):
-        maps.add(n.stmt.targets[0].id)
-  for nm_ in list(du.muts):
-    for m in cfg.nodes:
-      if m.stmt is not None and m.id not in du.muts[nm_] and any(
-          isinstance(y, ast.Name) and y.id == nm_ and isinstance(y.ctx, ast.Load)
-          for e_ in m.exprs if e_ is not None for y in ast.walk(e_)):
-        c2 = H.loop_as_comprehension(fn, du, rd, nm_, m.id)
-        if isinstance(c2, ast.DictComp) and sec_is(c2.generators[0].iter, "fields") and \
-            text(c2.key) == "%s.colRef.colId" % text(c2.generators[0].target):
-          maps.add(nm_)
-        break
   if not maps:
     raise AnalysisError("update_summary_section: map from a field's column id to the field not "
                         "found")
@@ -802,6 +817,11 @@ def r6_regrouped_fields(run, w):
     raise AnalysisError("update_summary_section: no look-up in the field map found")
   seen = set()
   for (k, site) in keys:
+    if isinstance(k, ast.Name):
+      b_ = binder_of(k.id, site)
+      if b_ is not None and any(isinstance(y, ast.Name) and y.id in maps
+                                for y in ast.walk(H.expand(fn, b_[0]))):
+        continue          # a key taken from the map's own keys
     origins = id_origin(k, node_of(site))
     bad_new, other = classify(origins)
     label = "%s -> %s" % (short(site, 50), ", ".join(sorted(origins)))
